@@ -1,6 +1,6 @@
 (* Extract.v — extraction of the executable model to OCaml (ExtrOcamlBasic only). *)
 From Coq Require Extraction ExtrOcamlBasic.
-From RS Require Import Base Network NetSpec Tour TourSpec SchedObs Output Pipeline Transition TransSpec LocalSearch TourExactFacts OpSpec Flow LoadStmts.
+From RS Require Import Base Network NetSpec Tour TourSpec SchedObs Output Pipeline Transition TransSpec LocalSearch TourExactFacts OpSpec Flow LoadStmts Schedule.
 Extraction Language OCaml.
 Extraction "model.ml" load nd can_reach successors predecessors service_nodes all_service_nodes
   capacity_of total_capacity_of get_start_depot_node get_end_depot_node
@@ -16,4 +16,8 @@ Extraction "model.ml" load nd can_reach successors predecessors service_nodes al
   check_wiring check_start cycles_eqb cycles_of nids_eqb itinerary
   new_fast get_successor_of update_vehicle add_vehicle_to_own_cycle remove_vehicle add_vehicle_at_the_end
   move_vehicle replace_cycle three_opt three_opt_indices transfer_m tinv_codes not_worse same_members first_node last_node strictly_descending lex_lt net_ok_b dists_finite_b dh_dists_finite_b check_op tf_replace tf_remove tf_add_at_tail
-  build_flow_network feasible is_decomposition check_optimal pi_of flow_cost spawning_cost total_lower_bound nid_idx valid_instance_b.
+  build_flow_network feasible is_decomposition check_optimal pi_of flow_cost spawning_cost total_lower_bound nid_idx valid_instance_b
+  empty_schedule spawn_vehicle_for_path spawn_to_replace_dummy replace_vehicle_by_dummy add_path_to_vehicle_tour
+  remove_segment fit_reassign override_reassign improve_depots reassign_end_depots_greedily recompute_transitions_for
+  reassign_end_depots_consistent set_next_day_transitions vehicles_iter_all vehicles_iter tour_of vget nget uget zget
+  spawned_total coverable_nodes.
